@@ -329,11 +329,21 @@ def run(m: Model, r: Report, tier: str) -> None:
     dis = m.require_function(f"{HANDLER}.DBHandler.disconnect")
     def line_of(pred) -> list[int]:
         return [n.lineno for n in ast.walk(dis.node) if pred(n)]
-    joins = [n for n in ast.walk(dis.node) if isinstance(n, ast.Await) and ast.unparse(n.value) == "self._execute_queue.join()"]
-    all_join_calls = [n for n in ast.walk(dis.node) if isinstance(n, ast.Call) and ast.unparse(n.func) == "self._execute_queue.join"]
+    # the writer queue and the writer task of the handler, by role (private attributes may be renamed): the attribute that holds an asyncio.Queue() and the
+    # one that holds the task created for the executor coroutine
+    _dbh_cls = m.require_class(f"{HANDLER}.DBHandler")
+    _qa = sorted({ast.unparse(n.targets[0]) for f_ in _dbh_cls.methods.values() for n in ast.walk(f_.node) if isinstance(n, ast.Assign) and isinstance(n.targets[0], ast.Attribute)
+                  and isinstance(n.value, ast.Call) and ast.unparse(n.value.func).endswith("Queue")})
+    _ta = sorted({ast.unparse(n.targets[0]) for f_ in _dbh_cls.methods.values() for n in ast.walk(f_.node) if isinstance(n, ast.Assign) and isinstance(n.targets[0], ast.Attribute)
+                  and isinstance(n.value, ast.Call) and ast.unparse(n.value.func).endswith("create_task")})
+    if len(_qa) != 1 or len(_ta) != 1:
+        raise AnalysisError(f"DBHandler: writer queue / writer task attributes not found ({_qa}, {_ta})")
+    QA, TA = _qa[0], _ta[0]
+    joins = [n for n in ast.walk(dis.node) if isinstance(n, ast.Await) and ast.unparse(n.value) == f"{QA}.join()"]
+    all_join_calls = [n for n in ast.walk(dis.node) if isinstance(n, ast.Call) and ast.unparse(n.func) == f"{QA}.join"]
     r.check(len(joins) == 1 and len(all_join_calls) == 1, "R7", f"{dis.qualname}#unbounded-join",
             "the queue join() is not awaited directly (wrapped in a timeout or missing): pending rows are dropped when the writer is slow", loc=dis.loc)
-    cancel = line_of(lambda n: isinstance(n, ast.Call) and ast.unparse(n.func) == "self._executor_task.cancel")
+    cancel = line_of(lambda n: isinstance(n, ast.Call) and ast.unparse(n.func) == f"{TA}.cancel")
     close = line_of(lambda n: isinstance(n, ast.Call) and ast.unparse(n.func) == "self.connection.close")
     jl = [n.lineno for n in all_join_calls]
     r.check(bool(jl and cancel and close) and max(jl) < min(cancel) < min(close), "R7", f"{dis.qualname}#order",
@@ -344,7 +354,7 @@ def run(m: Model, r: Report, tier: str) -> None:
     okcm, _ = gdz.must_pass(gdz.entry, commit_n, close_n) if commit_n and close_n else (False, [])
     okcl, _ = gdz.must_pass(gdz.entry, close_n, {gdz.exit_return}) if close_n else (False, [])
     r.check(okcm and okcl, "R7", f"{dis.qualname}#commit-then-close", "the connection must be committed before it is closed, and closed on every normal exit", loc=dis.loc)
-    await_task = [n for n in ast.walk(dis.node) if isinstance(n, ast.Await) and ast.unparse(n.value) == "self._executor_task"]
+    await_task = [n for n in ast.walk(dis.node) if isinstance(n, ast.Await) and ast.unparse(n.value) == TA]
     r.check(len(await_task) == 1 and cancel and await_task[0].lineno > min(cancel), "R7", f"{dis.qualname}#awaits-cancelled-writer",
             "the cancelled writer task must be awaited before the connection is closed (it may still be inside execute/commit)", loc=dis.loc)
     exf = m.require_function(f"{HANDLER}.DBHandler._executor_func")
@@ -357,19 +367,19 @@ def run(m: Model, r: Report, tier: str) -> None:
     conn = m.require_function(f"{HANDLER}.DBHandler.connect")
     tasks = [n for n in ast.walk(dbh.node) if isinstance(n, ast.Call) and ast.unparse(n.func) == "asyncio.create_task" and "_executor_func" in ast.unparse(n)]
     r.check(len(tasks) == 1, "R7", f"{dbh.qualname}#single-consumer", f"{len(tasks)} consumer tasks are created", loc=conn.loc)
-    queues = [ast.unparse(n.value.func) for n in ast.walk(dbh.node) if isinstance(n, ast.Assign) and ast.unparse(n.targets[0]) == "self._execute_queue" and isinstance(n.value, ast.Call)]
+    queues = [ast.unparse(n.value.func) for n in ast.walk(dbh.node) if isinstance(n, ast.Assign) and ast.unparse(n.targets[0]) == QA and isinstance(n.value, ast.Call)]
     r.check(queues == ["asyncio.Queue"], "R7", f"{dbh.qualname}#fifo-queue", f"queue constructors: {queues}", loc=conn.loc)
     ex_fn = m.require_function(f"{HANDLER}.DBHandler._executor_func")
-    gets = [n for n in ast.walk(ex_fn.node) if isinstance(n, ast.Call) and ast.unparse(n.func) == "self._execute_queue.get"]
+    gets = [n for n in ast.walk(ex_fn.node) if isinstance(n, ast.Call) and ast.unparse(n.func) == f"{QA}.get"]
     done_in_finally = any(isinstance(t, ast.Try) and any("task_done()" in ast.unparse(s) for s in t.finalbody) for t in ast.walk(ex_fn.node))
     r.check(len(gets) == 1 and done_in_finally, "R7", f"{ex_fn.qualname}#task-done",
             "task_done() must be in a finally so join() cannot hang or return early", loc=ex_fn.loc)
-    puts = [n for n in ast.walk(hins.node) if isinstance(n, ast.Call) and ast.unparse(n.func) == "self._execute_queue.put"]
+    puts = [n for n in ast.walk(hins.node) if isinstance(n, ast.Call) and ast.unparse(n.func) == f"{QA}.put"]
     r.check(len(puts) == 1, "R7", f"{hins.qualname}#one-put", f"{len(puts)} queue puts per exchange", loc=hins.loc)
 
     conn_fn = m.require_function(f"{HANDLER}.DBHandler.connect")
     qdefs = [n.value for n in ast.walk(conn_fn.node) if isinstance(n, (ast.Assign, ast.AnnAssign)) and n.value is not None and
-             ast.unparse(n.targets[0] if isinstance(n, ast.Assign) else n.target) == "self._execute_queue"]
+             ast.unparse(n.targets[0] if isinstance(n, ast.Assign) else n.target) == QA]
     if len(qdefs) != 1 or not isinstance(qdefs[0], ast.Call):
         raise AnalysisError(f"{conn_fn.qualname}: creation of the execute queue not found")
     qsize = qdefs[0].args[0] if qdefs[0].args else next((k.value for k in qdefs[0].keywords if k.arg == "maxsize"), None)
